@@ -2,6 +2,7 @@ use crate::run::Suite;
 use std::path::Path;
 
 pub mod c09;
+pub mod c10;
 pub mod c12;
 pub mod c16;
 pub mod c18;
@@ -23,6 +24,7 @@ pub mod c32;
 pub fn for_property(p: &str) -> Vec<Suite> {
     match p {
         "C09" => c09::suites(),
+        "C10" => c10::suites(),
         "C16" => c16::suites(),
         "C18" => c18::suites(),
         "C19" => c19::suites(),
